@@ -158,6 +158,8 @@ def run_part(pid, part, tier, binp, bdir, replay=None, seed=1):
             env["GOMAXPROCS"] = str(part["gomaxprocs"])
         if replay:
             env["VERIF_REPLAY"] = replay
+        if part.get("instrument"):
+            env["VERIF_PCS"] = os.path.join(bdir, "instr", part["pkg"].replace("/", "_"), "pcs.json")
         logf = open(os.path.join(bdir, "log.%d.txt" % i), "w")
         cmd = [binp, "-test.run", "^(%s)$" % part["run"], "-test.timeout", "%ds" % (deadline * 2 + 120), "-test.v"]
         mem = part.get("mem_gb", 12)
@@ -223,9 +225,23 @@ def merge(pid, spec, tier, records, wall, seed, infra_notes):
                 cov["samples"].append({"part": r.get("part"), "case": s})
         for k in (r.get("outcomes") or {}):
             outcomes.add((r.get("part"), k))
-        cov["parts"].append({k: r.get(k) for k in ("part", "shard", "states", "transitions", "executions", "distinct_nontrivial",
-                                                   "exhaustive", "bounds", "caps_hit", "notes", "wall_s", "n_violations", "outcomes")
-                             if r.get(k) not in (None, [], {}, "")})
+        agg = None
+        for p in cov["parts"]:
+            if p["part"] == r.get("part"):
+                agg = p
+        if agg is None:
+            agg = {"part": r.get("part"), "shards": 0, "states": 0, "transitions": 0, "executions": 0, "distinct_nontrivial": 0,
+                   "exhaustive": True, "bounds": r.get("bounds"), "caps_hit": [], "notes": r.get("notes") or [], "wall_s_max": 0,
+                   "n_violations": 0, "outcomes_first_shard": r.get("outcomes") or {}}
+            cov["parts"].append(agg)
+        agg["shards"] += 1
+        for k in ("states", "transitions", "executions", "distinct_nontrivial", "n_violations"):
+            agg[k] += r.get(k, 0) or 0
+        agg["exhaustive"] = agg["exhaustive"] and bool(r.get("exhaustive"))
+        agg["wall_s_max"] = max(agg["wall_s_max"], r.get("wall_s", 0))
+        for cp in r.get("caps_hit") or []:
+            if cp not in agg["caps_hit"] and len(agg["caps_hit"]) < 40:
+                agg["caps_hit"].append(cp)
         for v in r.get("violations") or []:
             v["_part"] = r.get("part")
             viols.append(v)
@@ -262,7 +278,8 @@ def run_check(pid, tier, replay=None, keep=False):
     ev, viols = merge(pid, spec, tier, records, wall, seed, [x[:2000] for x in infra])
     known = load_known()
     rc = 0
-    os.makedirs(os.path.join(VERIF, "replays"), exist_ok=True)
+    rpdir = os.environ.get("VERIF_REPLAY_DIR", os.path.join(VERIF, "replays"))
+    os.makedirs(rpdir, exist_ok=True)
     new_v, known_hits = [], {}
     for v in viols:
         k = match_known(pid, v, known)
@@ -274,9 +291,13 @@ def run_check(pid, tier, replay=None, keep=False):
     for what, n in known_hits.items():
         print("KNOWN-FINDING: property=%s %s (%d matching executions)" % (pid, what, n))
     seen_keys = set()
+    per_key = {}
     for v in new_v:
+        per_key[v.get("key")] = per_key.get(v.get("key"), 0) + 1
+        if per_key[v.get("key")] > 5:
+            continue
         h = hashlib.sha1(json.dumps([v.get("key"), v.get("replay")], sort_keys=True).encode()).hexdigest()[:12]
-        path = os.path.join(VERIF, "replays", "%s-%s.json" % (pid, h))
+        path = os.path.join(rpdir, "%s-%s.json" % (pid, h))
         json.dump({"property": pid, "part": v.get("_part"), "key": v.get("key"), "desc": v.get("desc"), "replay": v.get("replay"), "tier": tier},
                   open(path, "w"), indent=1)
         if (v.get("key"), v.get("_part")) in seen_keys:
@@ -288,8 +309,9 @@ def run_check(pid, tier, replay=None, keep=False):
     ev["violations"] = len(new_v)
     ev["coverage"]["known_findings_reproduced"] = known_hits
     if not replay:
-        os.makedirs(os.path.join(VERIF, "evidence"), exist_ok=True)
-        json.dump(ev, open(os.path.join(VERIF, "evidence", pid + ".json"), "w"), indent=1)
+        evdir = os.environ.get("VERIF_EVIDENCE_DIR", os.path.join(VERIF, "evidence"))
+        os.makedirs(evdir, exist_ok=True)
+        json.dump(ev, open(os.path.join(evdir, pid + ".json"), "w"), indent=1)
     c = ev["coverage"]
     print("%s %s: states=%d transitions=%d executions=%d distinct=%d exhaustive=%s violations=%d wall=%.1fs" % (
         pid, tier, c["states"], c["transitions"], c["evaluations"], c["distinct_nontrivial"], c["exhaustive"], len(new_v), wall))
